@@ -137,6 +137,26 @@ def run(ctx):
                   "%s gates the possible values on ValueRange::%s instead of takes_values(): args with an optional value lose their value list" % (q, preds))
     if len(sigs) == 2:
         res.check(len(set(map(tuple, sigs.values()))) == 1, "R16.2", "possible_values-siblings-agree", "clap_complete", "AOT and dynamic helpers use the same gate", "AOT and dynamic possible_values helpers disagree: %s" % sigs)
+    # R16.2e filters on item iterations in the generators consult only reviewed predicates (anything else can drop an item)
+    import rules.c12 as c12
+    SRC = c12.ITEM_SRC + r"|Command::(get_visible_aliases|get_all_aliases|get_visible_short_flag_aliases|get_visible_long_flag_aliases)$|Arg::(get_visible_aliases|get_visible_short_aliases|get_all_aliases)$|utils::(all_subcommands|subcommands|shorts_and_visible_aliases|longs_and_visible_aliases|flags|possible_values)$"
+    OKP = r"(arg::Arg::is_positional|arg::Arg::get_\w+|range::ValueRange::takes_values|possible_value::PossibleValue::(is_hide_set|get_help|get_name|get_name_and_aliases)|shells::\w+::escape_\w+|command::Command::get_\w+)$"
+    nfl = 0
+    for b in fx.bodies(r"^clap_complete::aot::|^clap_complete_nushell::"):
+        for c in b.calls_to(SRC):
+            if not isinstance(c.dest, int):
+                continue
+            t = taint_forward(b, [c.dest], call_transfer=lambda cc, ta: 0 in ta and (cc.is_(c12.ADAPT) or cc.is_(r"Option::(unwrap|expect|unwrap_or_default)$")))
+            for u in b.calls():
+                if u.args and op_local(u.args[0]) in t and u.is_(r"Iterator::(filter|filter_map|find|find_map|any|all|position|take_while|skip_while|skip|take|step_by)$"):
+                    nfl += 1
+                    extra = sorted(set(cc.callee_q.split("::", 1)[1] for cb in closure_bodies(fx, u) for x in tree(cb) for cc in x.calls()
+                                       if cc.callee_q and re.match(r"^clap_", cc.callee_q) and not sp_macro(cc.sp) and not re.search(OKP, cc.callee_q)))
+                    trunc = u.is_(r"Iterator::(skip|take|step_by)$")
+                    res.check(not extra and not trunc, "R16.2", "generator-filter|%s|%s" % (b.q.split("::", 2)[-1].split("{")[0], u.callee_q.rsplit("::", 1)[1]), u.where(),
+                              "filter consults only positional/takes-value/hidden-value predicates", "generator %s %s the item list%s: options, values or subcommands can be left out of the script" % (
+                                  b.q, "truncates" if trunc else "filters", "" if trunc else " with " + str(extra)))
+    res.floor("R16.2", "filters on item iterations in the generators", nfl, 8)
     # R16.2d bash: the function name handed down as the children's parent_fn_name is the mangled one (it is what the
     # generated `case "$cmd,$word"` arms compare against)
     ac = [b for b in fx.bodies(r"^clap_complete::aot::shells::bash::all_subcommands::add_command$")]
